@@ -95,9 +95,14 @@ theorem unknown_class_refused (d : Nat) (cname : String) (args : List E) (h : cl
   operators `minus`/`plus`/`jump`/`avg`/`dn`, literal `mat`/`tup`/`pd` nodes in the *input*,
   `laplace`/`grad` of a matrix, `outer`, `convect` (no leaf class exists: `unknown_class_refused`),
   products of two non-scalar factors (sympy's matrix product is not the entry-wise product `denG`
-  gives to `mul`), dimensions other than 1, 2, 3.  Whether the dispatcher returns a value at all
-  on the fragment is a different statement (it does not in dimension 1 for `grad(h) + F`:
-  known finding C01-1d-mixed); `Gen.fragment_total` states that no covered class is missing.
+  gives to `mul`), dimensions other than 1, 2, 3.
+
+  **Totality** ("on the supported operator fragment lowering does not fail"): `lower_total` —
+  in dimension 2 and 3 the dispatcher returns a value for every expression of the fragment
+  (every covered class exists and returns a formula, its derivative nodes are never refused on
+  lowered arguments, sums and products meet values of matching shapes).  In dimension 1 this is
+  FALSE for the code as it is (open finding C01-1d-mixed): `lower_total_fails_1d` is the
+  counterexample `grad(h) + F`; `lower_sound_total` is the combined statement for d = 2, 3.
 -/
 
 /-- the covered fragment: the generic expressions `ty` gives a type to -/
@@ -139,6 +144,37 @@ theorem lower_sound (S : DRing K) (d : Nat) (hd : d = 1 ∨ d = 2 ∨ d = 3) (lg
 theorem lower_shape (d : Nat) (hd : d = 1 ∨ d = 2 ∨ d = 3) (lg : Bool) (e t : E) (τ : Ty)
     (hτ : ty d e = some τ) (h : lower d lg e = .ok t) : hasShape d τ t = true :=
   lower_ty_shape d hd lg e τ t hτ h
+
+/-- **Totality (d = 2, 3).**  On the covered fragment lowering does not fail. -/
+theorem lower_total (d : Nat) (hd : d = 2 ∨ d = 3) (lg : Bool) (e : E) (hwt : WT d e = true) :
+    ∃ t, lower d lg e = .ok t := by
+  unfold WT at hwt
+  cases hτ : ty d e with
+  | none => rw [hτ] at hwt; cases hwt
+  | some τ => exact lower_ty_total d hd lg e τ hτ
+
+/-- value, shape and totality together, in dimension 2 and 3: lowering a well-typed expression of
+    the fragment returns a value of the shape of its type whose components are the classical ones -/
+theorem lower_sound_total (S : DRing K) (d : Nat) (hd : d = 2 ∨ d = 3) (lg : Bool) (e : E) (τ : Ty)
+    (hτ : ty d e = some τ) :
+    ∃ t, lower d lg e = .ok t ∧ hasShape d τ t = true ∧
+      ∀ i j, Comp d e i j → den S t i j = denG S d lg e i j := by
+  obtain ⟨t, ht⟩ := lower_ty_total d hd lg e τ hτ
+  exact ⟨t, ht, lower_ty_shape d (Or.inr hd) lg e τ t hτ ht,
+    lower_sound S d (Or.inr hd) lg e t (by simp [WT, hτ]) ht⟩
+
+set_option maxRecDepth 100000 in
+/-- **Counterexample in dimension 1** (open finding C01-1d-mixed, key `corpus:1d grad(h)+F`):
+    the full statement "for every d ∈ {1,2,3} lowering does not fail on the fragment" is false —
+    `grad(h) + F` is well typed (a vector) but the gradient of a scalar is lowered to the bare
+    scalar `dx(h)` while `F` is lowered to the 1×1 matrix `[[F[0]]]`, and scalar + matrix is a
+    `TypeError`.  (`lower_sound` still holds in 1D: it speaks of the values that are returned.) -/
+theorem lower_total_fails_1d (lg : Bool) :
+    WT 1 (add [op1 .grad (sf "h" .h1), vf "F" .h1]) = true ∧
+    lower 1 lg (add [op1 .grad (sf "h" .h1), vf "F" .h1]) = .error .typeError := by
+  constructor
+  · decide
+  · cases lg <;> rfl
 
 /-- the operator applications directly on atoms, for every (class, signature) pair of the
     generated index, are instances: e.g. the gradient of a scalar function -/
